@@ -41,3 +41,43 @@ def content(fo):
     if isinstance(fo, tok.TokIO):
         return list(fo.toks)
     return fo.getvalue()
+
+
+def untraced(fn):
+    """Run fn natively (outside CrossHair's tracer).  Only for calls whose arguments are concrete
+    in every harness that uses it (schema JSON, header metadata): the real function still runs,
+    it is merely not interpreted symbolically."""
+    try:
+        from crosshair.tracers import NoTracing
+    except Exception:
+        return fn
+
+    def w(*a, **k):
+        with NoTracing():
+            return fn(*a, **k)
+    w.__name__ = getattr(fn, "__name__", "untraced")
+    return w
+
+
+_fast = []
+
+
+def fast_concrete_schema_handling():
+    """container harnesses: json.dumps/json.loads of the (concrete) schema and parse_schema of the
+    (concrete) schema run natively; without this CrossHair re-interprets them on every path."""
+    if _fast or not tokmode() or os.environ.get("VF_HARNESS") != "1":
+        return
+    import json
+    import fastavro._write_py as W
+    import fastavro._read_py as R
+    import fastavro._schema_py as S
+
+    class J:
+        dumps = staticmethod(untraced(json.dumps))
+        loads = staticmethod(untraced(json.loads))
+
+    W.json = J
+    R.json = J
+    W.parse_schema = untraced(S.parse_schema)
+    R.parse_schema = untraced(S.parse_schema)
+    _fast.append(1)
